@@ -65,6 +65,24 @@ CHECKS = {
         "object.__reduce_ex__/str.__getnewargs__ supply (found BBAN); __deepcopy__ is evaluated symbolically for each class on objects built with validation off (found the re-validation and the BBAN arity error) and must restore class, text and attributes.",
    note="The copy/pickle protocol is modelled, not executed. Comparison with foreign types follows str (library model).",
    design="3/C16"),
+ "C10": dict(
+   technique="symbolic evaluation of clean() and of every constructor + regular-language check of the whitespace pattern over all code points + evaluation of formatted on tagged strings of every length",
+   text="clean(raw) is shown to be upper(remove(pattern, raw)) with a pattern that matches every one of the str.isspace code points singly and no text containing a non-whitespace character; IBAN, BIC and BBAN objects are shown to carry exactly clean(raw) "
+        "and never to read the raw parameter again; formatted is evaluated for every length 0..40 (IBAN) and 8/11 (BIC) on tagged strings and equals groups of four / the parts joined by one space.",
+   note="Trusted: str.upper creates neither whitespace nor ASCII lower case; formatted is parametric in the characters.",
+   design="3/C10"),
+ "C11": dict(
+   technique="evaluation of every accessor on tagged texts (each position a distinct character) for every length and every country, compared with the published ranges of the table; symbolic evaluation of from_bban",
+   text="For all 126 countries and all 8 components, IBAN.<component> and IBAN.bban.<component> return exactly the published range (or '' when unpublished); country code + check digits + BBAN tile every text of length 4..40 and the BIC parts tile lengths 8 and 11; "
+        "the component enumeration equals the keys the table uses; from_bban re-assembles in the order the accessors slice.",
+   note="Accessors only slice, so one tagged text per length / country decides all texts; agreement of positions with SWIFT is not decided.",
+   design="3/C11"),
+ "C18": dict(
+   technique="translation validation of registry.py against the stated composition: abstract evaluation over a virtual file system on a bounded-exhaustive document space, adversarial listing order",
+   text="merge_dicts is evaluated on all 10 000 pairs of a document space with scalar/dict/nested/list/null conflicts (plus deeper sampled pairs) and must equal the deep later-wins merge and leave operands untouched; "
+        "get() is evaluated on virtual directories of three dict files and of list files with a v2 file, with glob returning names in non-sorted orders; build_index on empty and partially empty keys; all readers go through registry.get.",
+   note="Trusted: datamodel.py's deep_merge/expand_v2 as the statement of C18. Outside the bounded shape space the result is inferred.",
+   design="3/C18"),
 }
 NA_REASON = "check not built yet (work in progress; see DESIGN.md section 3 for the plan)"
 
